@@ -171,6 +171,8 @@ def advanceIngress (macf : MacF) (c : VCtx) (p : Path) (fromInternal : Bool) :
           .ok ({ p with infos := setAt p.infos p.currInf info1, hops := setAt p.hops p.currHf hop1 },
                { scmpAlert := alert, ingressIf := curIngress, action := .continueEgress (hop1.egressIf info1) }, verr)
         else if !isFinal && segEnd then
+          -- the next hop-field index must fit the 6-bit CurrHF field
+          if p.currHf + 1 > MAX_TOTAL_HOPS then .error .hopOob else
           match p.hops[p.currHf + 1]?, p.infos[segIdx + 1]? with
           | none, _ => .error .hopOob
           | _, none => .error .infoOob
@@ -202,6 +204,7 @@ def advanceEgress (macf : MacF) (c : VCtx) (p : Path) : Except AdvErr (Path × E
       | _, none => .error .infoOob
       | some hop, some info =>
         if isFinal then .error .hopOob
+        else if p.currHf + 1 > MAX_TOTAL_HOPS then .error .hopOob   -- CurrHF is a 6-bit field
         else if segEnd then .error .atSegmentEnd
         else
           let verr := validateHop macf c hop info
